@@ -18,7 +18,7 @@ import (
 
 // packages whose internals are executed without scheduling points (their
 // operations are linearizable; only the blocking operations they expose matter).
-var atomicPkgs = map[string]bool{"context": true}
+var atomicPkgs = map[string]bool{"context": true, "sync": true}
 
 type continuation int
 
@@ -466,6 +466,11 @@ func (r *run) call(caller *frame, callpos token.Pos, fn value, args []value) val
 }
 
 func (r *run) callSSA(caller *frame, callpos token.Pos, fn *ssa.Function, args []value, env []value) value {
+	return r.callSSAx(caller, callpos, fn, args, env, false)
+}
+
+// callSSAx: noIntrinsic runs the SSA body even if an intrinsic is registered for fn.
+func (r *run) callSSAx(caller *frame, callpos token.Pos, fn *ssa.Function, args []value, env []value, noIntrinsic bool) value {
 	var th *thread
 	if caller != nil {
 		th = caller.th
@@ -484,12 +489,16 @@ func (r *run) callSSA(caller *frame, callpos token.Pos, fn *ssa.Function, args [
 		if st, ok := r.stubs[name]; ok {
 			return r.call(caller, callpos, st, args)
 		}
-		if ext := r.e.intrinsic(fn, name); ext != nil {
+		if ext := r.e.intrinsic(fn, name); ext != nil && !noIntrinsic {
 			r.e.noteIntrinsic(name)
 			return ext(fr, args)
 		}
 		if fn.Blocks == nil {
-			panic(unsupported{"no code for function: " + name})
+			stack := ""
+			for c := caller; c != nil && len(stack) < 600; c = c.caller {
+				stack += " <- " + c.fn.String()
+			}
+			panic(unsupported{"no code for function: " + name + " (called from" + stack + ")"})
 		}
 	}
 	if fn.TypeParams().Len() > 0 && len(fn.TypeArgs()) == 0 {
